@@ -1112,6 +1112,10 @@ hdf_xdr_NCvdata(NC *handle, NC_var *vp, unsigned long where, nc_type type, uint3
                     goto done;
                 }
 
+                /* advance pvalues on buffer "values" past the batch just processed,
+                   before the size of the next batch is worked out */
+                pvalues = pvalues + new_count * vp->szof;
+
                 /* compute the number of elements left to be processed */
                 elements_left = elements_left - new_count;
 
@@ -1121,9 +1125,6 @@ hdf_xdr_NCvdata(NC *handle, NC_var *vp, unsigned long where, nc_type type, uint3
                     new_count = elements_left;
                     data_size = new_count * vp->szof;
                 }
-
-                /* advance pvalues on buffer "values" for next batch of data */
-                pvalues = pvalues + data_size;
             } /* while more elements left to be processed */
 
             SDPfreebuf(); /* free tBuf and tValues if any exist */
@@ -1183,6 +1184,10 @@ hdf_xdr_NCvdata(NC *handle, NC_var *vp, unsigned long where, nc_type type, uint3
                     ret_value = FAIL;
                     goto done;
                 }
+                /* advance pvalues on buffer "values" past the batch just processed,
+                   before the size of the next batch is worked out */
+                pvalues = pvalues + new_count * vp->szof;
+
                 /* compute the number of elements left to be processed */
                 elements_left = elements_left - new_count;
 
@@ -1192,9 +1197,6 @@ hdf_xdr_NCvdata(NC *handle, NC_var *vp, unsigned long where, nc_type type, uint3
                     new_count = elements_left;
                     data_size = new_count * vp->szof;
                 }
-
-                /* advance pvalues on buffer "values" for next batch of data */
-                pvalues = pvalues + data_size;
             } /* while more elements left to be processed */
 
             SDPfreebuf(); /* free tBuf and tValues if any exist */
